@@ -52,6 +52,7 @@ func main() {
 		worker    = flag.Bool("worker", false, "worker mode")
 		from      = flag.Int("from", 0, "first run index")
 		to        = flag.Int("to", 0, "one past last run index")
+		stride    = flag.Int("stride", 1, "run index stride")
 		replay    = flag.String("replay", "", "replay file")
 		exec1     = flag.String("exec1", "", "execute one trace file and print the result")
 		digest    = flag.Bool("digest", false, "print per-run digests")
@@ -90,7 +91,7 @@ func main() {
 			fmt.Fprintln(os.Stderr, "unknown property", *prop)
 			os.Exit(2)
 		}
-		out := runWorker(ps, *tier, seed, *from, *to, *digest, *budget)
+		out := runWorker(ps, *tier, seed, *from, *to, *stride, *digest, *budget)
 		enc := json.NewEncoder(os.Stdout)
 		if err := enc.Encode(out); err != nil {
 			fmt.Fprintln(os.Stderr, err)
